@@ -26,6 +26,7 @@ const jsonrpcPkg = rootPath + "/da/jsonrpc"
 
 func runC16(c *Check) {
 	dp := c.Mod(ModDA)
+	ruleDAErrorsKeepSentinelText(c, []*Prog{c.Mod(ModCore), dp}, "C16-R12")
 	c.Doc("C16-R1", "TM+CT: identity-preserving sentinels (feeds R2).")
 	c.Doc("C16-R2", "FS: identity classification of DA errors is wire-safe.")
 	c.Doc("C16-R3", "EO-flag+VP: the client's size filter.")
@@ -387,7 +388,7 @@ func runC16(c *Check) {
 			} else {
 				// the counter incremented on the skip path
 				var counter *ssa.BinOp
-				var counterCell *ssa.Alloc // the counter lives in a variable captured by a closure
+				var counterCell *ssa.Alloc       // the counter lives in a variable captured by a closure
 				var counterFieldAlloc *ssa.Alloc // … or in a field of a local result bundle
 				counterField := -1
 				for n := range g.Reachable(skipEdges, nodeSet(apps)) {
@@ -1251,7 +1252,6 @@ func cellOfLoad(v ssa.Value, ctx *Ctx) *ssa.Alloc {
 	}
 	return nil
 }
-
 
 // fieldCellOfLoad: v loads a field of a local struct variable (a counter kept in a result bundle).
 func fieldCellOfLoad(v ssa.Value) (*ssa.Alloc, int, bool) {
